@@ -131,7 +131,7 @@ Proof.
   intros e Q. unfold fields_ok. apply forallb_forall. intros u Hu.
   destruct (all_ufields_ok e u Q Hu) as [W _]. destruct (ufield_wf_parts u W) as [_ [Wi W3]].
   unfold ufield_ok. rewrite W3. cbn [negb andb]. unfold inline_wf in Wi.
-  destruct (uf_kind u); try reflexivity; apply andb_true_iff in Wi; destruct Wi as [Wi _]; now apply sfields_ok.
+  destruct (uf_kind u); try reflexivity; try discriminate; apply andb_true_iff in Wi; destruct Wi as [Wi _]; now apply sfields_ok.
 Qed.
 
 (* what a schema of the block defines *)
@@ -185,7 +185,7 @@ Lemma ref_ok_resolves : forall e fl u, ref_ok e u = true ->
   resolves (defined (expand_with e fl)) (of_ufield u) = true.
 Proof.
   intros e fl [n k r o] H. unfold ref_ok in H. cbn [uf_kind] in H. unfold resolves, field_resolves, of_ufield. cbn [uf_kind].
-  destruct k as [pt j|m|m|m|p f t|tn j|i|i|sfs|sfs|os];
+  destruct k as [pt j|m|m|m|p f t|tn j|i|i|sfs|sfs|os|tk tfs];
     cbn [f_type f_inline ref_resolves il_fields forallb andb]; rewrite ?inline_type_resolves; rewrite ?andb_true_r; try reflexivity.
   - apply resolves_local. now apply names_object_defined.
   - apply resolves_local. now apply names_oneof_defined.
@@ -194,6 +194,7 @@ Proof.
   - now apply item_resolves.
   - cbn [andb]. now apply sfields_resolve.
   - cbn [andb]. now apply sfields_resolve.
+  - discriminate.
 Qed.
 
 Lemma closed_holds : forall e fl, quantified e -> closed (expand_with e fl) = true.
@@ -385,7 +386,7 @@ Proof.
   intros [n k r o d kf c].
   unfold of_ufield, is_map_kind, is_map_field, sp_presence, is_repeated_kind, is_inline_kind, inline_type.
   cbn [uf_kind uf_optional uf_name uf_container uf_desc uf_keyfmt].
-  destruct k as [pt j|m|m|m|p f t|tn j|i|i|sfs|sfs|os]; cbn [f_json f_optional f_type andb negb];
+  destruct k as [pt j|m|m|m|p f t|tn j|i|i|sfs|sfs|os|tk tfs]; cbn [f_json f_optional f_type andb negb];
     repeat split; try reflexivity; try (now rewrite andb_true_r); try (now rewrite andb_false_r);
     try (destruct i; reflexivity);
     try (now rewrite negb_involutive);
@@ -471,7 +472,7 @@ Lemma user_inline_names : forall fs, inline_names (map of_ufield fs) = sp_inline
 Proof.
   induction fs as [|[n k r o d kf c] fs IH]; [reflexivity|]. unfold inline_names, sp_inline_names in *. cbn [map flat_map].
   rewrite IH. f_equal. unfold of_ufield. cbn [uf_kind uf_name uf_container].
-  destruct k as [pt j|m|m|m|p f t|tn j|i|i|sfs|sfs|os]; rewrite ?inline_of_inline_type;
+  destruct k as [pt j|m|m|m|p f t|tn j|i|i|sfs|sfs|os|tk tfs]; rewrite ?inline_of_inline_type;
     try (rewrite inline_of_none by reflexivity); cbn [il_kind il_options N.eqb Pos.eqb]; try reflexivity.
   now rewrite inline_enum_values_eq.
 Qed.
@@ -498,7 +499,7 @@ Proof.
   apply Forall_forall. intros sc Hsc. apply in_flat_map in Hsc. destruct Hsc as [u [Hu Hsc]].
   rewrite forallb_forall in Hw. destruct (ufield_wf_parts u (Hw u Hu)) as [_ [Wi _]]. specialize (Ht u Hu).
   destruct u as [n k r o]. unfold of_ufield in Hsc. unfold inline_wf in Wi. cbn [uf_kind] in *.
-  destruct k as [pt j|m|m|m|p f t|tn j|i|i|sfs|sfs|os]; cbn [f_inline il_kind il_fields N.eqb Pos.eqb] in Hsc; try contradiction.
+  destruct k as [pt j|m|m|m|p f t|tn j|i|i|sfs|sfs|os|tk tfs]; cbn [f_inline il_kind il_fields il_tree N.eqb Pos.eqb] in Hsc; try contradiction; try discriminate.
   - (* inline object *)
     destruct Hsc as [<-|[]]. apply andb_true_iff in Wi. destruct Wi as [_ Wn]. apply nodup_bytes_NoDup in Wn.
     unfold sp_inline_scope in Wn. rewrite map_map. exact Wn.
@@ -552,10 +553,10 @@ Qed.
 Lemma inline_names_not_lower : forall fs x, forallb ufield_wf fs = true -> In x (sp_inline_names fs) -> lower_start x = false.
 Proof.
   intros fs x Hw Hx. unfold sp_inline_names in Hx. apply in_flat_map in Hx. destruct Hx as [u [Hu Hx]].
-  rewrite forallb_forall in Hw. destruct (ufield_wf_parts u (Hw u Hu)) as [Hn _].
+  rewrite forallb_forall in Hw. destruct (ufield_wf_parts u (Hw u Hu)) as [Hn [Wi _]]. unfold inline_wf in Wi.
   destruct (camel_cap_start _ Hn) as [c [t [E Hc]]].
   assert (Hcamel : lower_start (to_camel (uf_name u)) = false) by (rewrite E; cbn; now apply cap_not_low).
-  destruct (uf_kind u) as [pt j|m|m|m|p f te|tn j|i|i|sfs|sfs|os]; try contradiction.
+  destruct (uf_kind u) as [pt j|m|m|m|p f te|tn j|i|i|sfs|sfs|os|tk tfs]; try contradiction; try discriminate.
   - destruct Hx as [<-|[]]. exact Hcamel.
   - destruct Hx as [<-|[]]. exact Hcamel.
   - destruct Hx as [<-|Hx]; [exact Hcamel|].
